@@ -1627,8 +1627,10 @@ func (ex *exec) typeAssert(st *State, x *ssa.TypeAssert) {
 type syncKeep struct {
 	hi  *heapInfo
 	ref string
-	sl  string // for element ranges: slice term (evaluated before)
-	all bool
+	sl   string // for element ranges: slice term (evaluated before)
+	all  bool
+	each bool   // s[*].f: ref mentions the bound index i! (field f of every pointed-to struct)
+	trig string // trigger term of the quantified keep
 }
 
 func (ex *exec) syncKeeps(before *State) []syncKeep {
@@ -1639,6 +1641,28 @@ func (ex *exec) syncKeeps(before *State) []syncKeep {
 	for _, a := range fc.SyncPreserves {
 		switch x := a.E.(type) {
 		case *SSelect:
+			if ix, isIdx := x.X.(*SIndex); isIdx && ix.I == nil {
+				// s[*].f : field f of every struct the elements of slice s point to
+				sl, err := env.term(ix.X)
+				if err != nil {
+					ex.bail("sync preserves %s: %v", a.Text, err)
+				}
+				st0, ok := sl.Typ.Underlying().(*types.Slice)
+				if sl.S != SSlice || !ok {
+					ex.bail("sync preserves %s: not a slice", a.Text)
+				}
+				if _, isPtr := st0.Elem().Underlying().(*types.Pointer); !isPtr {
+					ex.bail("sync preserves %s: elements are not pointers", a.Text)
+				}
+				eh := vc.elemHeap(st0.Elem())
+				elem := Val{T: "(select (select " + vc.heapGet(before, eh) + " (sarr " + sl.T + ")) i!)", S: vc.sorts.sortOf(st0.Elem()), Typ: st0.Elem()}
+				hi, ref, err := ex.fieldCell(env, elem, x.Sel)
+				if err != nil {
+					ex.bail("sync preserves %s: %v", a.Text, err)
+				}
+				keeps = append(keeps, syncKeep{hi: hi, ref: ref, sl: sl.T, each: true, trig: elem.T})
+				continue
+			}
 			b, err := env.term(x.X)
 			if err != nil {
 				ex.bail("sync preserves %s: %v", a.Text, err)
@@ -1684,6 +1708,11 @@ func (ex *exec) applyKeeps(keeps []syncKeep, before, st *State, skip map[string]
 		}
 		oldH := vc.heapGet(before, k.hi)
 		newH := vc.heapGet(st, k.hi)
+		if k.each {
+			vc.addLine(fmt.Sprintf("(assert (=> %s (forall ((i! Int)) (! (=> (and (<= (soff %s) i!) (< i! (+ (soff %s) (slen %s)))) (= (select %s %s) (select %s %s))) :pattern (%s)))))",
+				ex.cur, k.sl, k.sl, k.sl, newH, k.ref, oldH, k.ref, k.trig))
+			continue
+		}
 		if k.all {
 			vc.addLine(fmt.Sprintf("(assert (=> %s (forall ((i! Int)) (! (=> (and (<= (soff %s) i!) (< i! (+ (soff %s) (slen %s)))) (= (select (select %s (sarr %s)) i!) (select (select %s (sarr %s)) i!))) :pattern ((select (select %s (sarr %s)) i!))))))",
 				ex.cur, k.sl, k.sl, k.sl, newH, k.sl, oldH, k.sl, newH, k.sl))
